@@ -52,19 +52,38 @@ def _transfer_modes(ctx, ssf):
     """attr -> 'ref' | 'copy' | 'deep1' as transferred by a set_state_from body"""
     modes = {}
     for n in walk_local(ssf.node):
-        if isinstance(n, ast.For) and isinstance(n.target, ast.Name):
-            names = C.resolve_str_tuple(ctx, ssf, n.iter)
-            if not names:
+        if isinstance(n, ast.For):
+            # ``for attr in ("a", "b")``  or  ``for flag, attr in (("fa", "a"), ...)``
+            cols = {}
+            if isinstance(n.target, ast.Name):
+                names = C.resolve_str_tuple(ctx, ssf, n.iter)
+                if names:
+                    cols[n.target.id] = names
+            elif isinstance(n.target, ast.Tuple) and isinstance(n.iter, (ast.Tuple, ast.List)):
+                rows = [C.str_consts(e) for e in n.iter.elts]
+                if rows and all(r_ is not None and len(r_) == len(n.target.elts) for r_ in rows):
+                    for i, te in enumerate(n.target.elts):
+                        if isinstance(te, ast.Name):
+                            cols[te.id] = [r_[i] for r_ in rows]
+            if not cols:
                 continue
-            var = n.target.id
+            # locals of the loop body bound to getattr(other, <col var>)
+            via = {}
+            for st in ast.walk(n):
+                if isinstance(st, ast.Assign) and isinstance(st.targets[0], ast.Name) and \
+                        isinstance(st.value, ast.Call) and dotted(st.value.func) == "getattr":
+                    via[st.targets[0].id] = st.value
             for st in n.body:
                 for call in [x for x in ast.walk(st) if isinstance(x, ast.Call)
                              and dotted(x.func) == "setattr" and len(x.args) == 3]:
-                    if C.unparse(call.args[1]) != var:
+                    var = C.unparse(call.args[1])
+                    if var not in cols:
                         continue
                     v = call.args[2]
+                    if isinstance(v, ast.Name) and v.id in via:
+                        v = via[v.id]
                     mode = _value_mode(v)
-                    for a in names:
+                    for a in cols[var]:
                         modes[a] = mode
         elif isinstance(n, ast.Assign):
             for t in n.targets:
@@ -508,6 +527,16 @@ def rule_pre(ctx):
     return r
 
 
+def rule_presource(ctx):
+    """Shared with C18-PRE: a pre-computed figure handed to contract_nodes_pair is
+    cached verbatim and added to the running totals."""
+    from .c18 import rule_pre as src
+
+    return C.reuse_rule(ctx, src, "C18-PRE", "C04-PRESRC",
+                        "figures pre-supplied to contract_nodes_pair come from one call of the "
+                        "cross-checked simulator", lambda i: True, 2)
+
+
 def rule_whole(ctx):
     """Shared with C02-NODE: removing a node must leave none of its cached figures
     behind (restore_ind / reconfiguration rely on remove + re-add to recompute)."""
@@ -544,5 +573,5 @@ def rule_pure(ctx):
                         lambda i: True, 8)
 
 
-RULES = [rule_copy, rule_alias, rule_track, rule_staleread, rule_pre, rule_whole, rule_presurv,
-         rule_pure]
+RULES = [rule_copy, rule_alias, rule_track, rule_staleread, rule_pre, rule_presource, rule_whole,
+         rule_presurv, rule_pure]
